@@ -235,8 +235,9 @@ let cmd_run envs hdr w =
 (* ---------- workbook ---------- *)
 let parse_sheetref s : esheetref =
   match String.split_on_char '~' s with
-  | [name; rid; part; sp; extra] ->
+  | [name; rid; part; sp; extra; typ] ->
     { sr_name = s_of_hex name; sr_rid = s_of_hex rid; sr_part = s_of_hex part;
+      sr_type = (if typ = "-" then [] else s_of_hex typ);
       sr_spelling = (match sp with "1" -> SpAbsolute | "2" -> SpXl | _ -> SpRelative);
       sr_extra = parse_attrs extra; sr_content = SOther [] }
   | _ -> failwith "bad sheetref"
